@@ -36,6 +36,9 @@ CHECKS = {
  "C14": ("exploration", "parser sweep with three-way case-folding oracle + render/load/compile round trips through the sandbox's configuration path", "vc + go-ucfg", "DESIGN.md 3/C14",
          "Every ASCII case mask of every documented action/operation name, near misses, Unicode fold look-alikes and PRNG strings are offered to the parsers; PRNG valid policies are rendered as documented hand-written YAML, yaml.Marshal and json.Marshal, loaded through ucfg exactly as cmd/sandbox does, compiled and compared instruction by instruction with the in-memory policy's program.",
          "go-ucfg and yaml.v2 are exercised as they are; policies are sampled."),
+ "C08": ("exploration", "fresh child process per case: real LoadFilter, raw probe syscalls, kernel outcome vs reference semantics vs interpreter; program compared at hook and via strace at the syscall boundary", "E6 vchild + strace", "DESIGN.md 3/C08",
+         "PRNG policies over argument-ignoring probe syscalls (deny-lists, whole-table allow-lists minus probes giving early-return bridges, 12..30-list entries giving 'ja' bridges, conditions on all six arguments) are loaded by the real LoadFilter in throw-away amd64 and 386 processes with flags 0..3 and NNP on/off; directed probes with arbitrary 64-bit register values are issued and the kernel's answer (success, errno, SIGSYS death seen in the wait status, thread disappearance for kill_thread) is compared with the reference semantics; the sock_filter array is compared with the parent's compilation at hook H3 and, sampled, at the syscall boundary by strace.",
+         "Host kernel and its two ABIs only; no tracer/listener; 386 children cannot produce argument values >= 2^32; thorough tier adds checkptr and race builds of the child."),
 }
 
 def main():
